@@ -277,6 +277,7 @@ theorem subInv_step {s s' : St} (h : SubInv s) (st : Step s s') : SubInv s' := b
           exact hch.2
   | regLabel l _ => exact subInv_of_cc (by rw [frames_mapFrames]; simp [List.map_map, Function.comp_def]) h
   | ctl i _ _ _ => exact subInv_push h i
+  | emitRet i _ _ _ _ _ => exact subInv_push h i
   | ctlVia k i _ _ _ =>
     unfold St.pushVia St.push
     refine ⟨?_, ?_⟩
@@ -734,6 +735,12 @@ theorem grow_loopBody (g : Globals) : ∀ (l : List LoopStmt) (lb le : Name) (rc
 end
 
 
+theorem ss_fnReturn (g : Globals) (resTy : Ty) (e : Expr) (rc : Bool) (s : St) :
+    (fnReturn g resTy e rc s).1.shapesStack = s.shapesStack := by
+  obtain ⟨s2, h, hq | ⟨r, hq⟩⟩ := fnReturn_split g resTy e rc s
+  · rw [hq]; exact ss_esteps h
+  · rw [hq]; dsimp only; split <;> (rw [ss_push]; exact ss_esteps h)
+
 theorem grow_bodyStmts (g : Globals) (resTy : Ty) : ∀ (l : List BodyStmt) (rc : Bool) (s : St),
     BodyStmt.loopOKL l = true → Grow s (bodyStmts g resTy l rc s).1 (Shape.eraseL (BodyStmt.shapesL l))
   | [], _, s, _ => by unfold bodyStmts BodyStmt.shapesL; rw [eraseL_nil]; exact Grow.refl _
@@ -764,13 +771,13 @@ theorem grow_bodyStmts (g : Globals) (resTy : Ty) : ∀ (l : List BodyStmt) (rc 
         (grow_bodyStmts g resTy tl rc _ hok.2)
     | expr e =>
       simp only [BodyStmt.shapesL, BodyStmt.loopOKL] at hok ⊢
-      have h1 := ss_esteps (esteps_fnReturn g resTy e rc s0)
+      have h1 := ss_fnReturn g resTy e rc s0
       generalize fnReturn g resTy e rc s0 = q at h1
       obtain ⟨s1, r⟩ := q
       exact Grow.pre h1 (grow_bodyStmts g resTy tl r s1 hok)
     | ret e =>
       simp only [BodyStmt.shapesL, BodyStmt.loopOKL] at hok ⊢
-      have h1 := ss_esteps (esteps_fnReturn g resTy e rc s0)
+      have h1 := ss_fnReturn g resTy e rc s0
       generalize fnReturn g resTy e rc s0 = q at h1
       obtain ⟨s1, r⟩ := q
       exact Grow.pre h1 (grow_bodyStmts g resTy tl r s1 hok)
